@@ -351,6 +351,10 @@ func checkParsed(c *ev.Collector, t ev.Fataler, sm gen.SwitchMsg) {
 		fail("C04|"+tail2(pc)+"|value-mismatch", detail)
 		return
 	}
+	if bad := addrValues(r.m); bad != "" {
+		fail("C04|"+sm.Kind+"|address-value", bad)
+		return
+	}
 	if sm.Kind == "packet_in" {
 		p := r.m.(*of.PacketIn)
 		wd, gd := ethDump(sm.Pkt.Eth), ethDump(&p.Data)
